@@ -2,6 +2,11 @@
 
 use crate::check::Replay;
 
+pub fn worker(family: &str, _prop: &str, _seed: u64, _start: u64, _stride: u64, _total: u64) {
+    eprintln!("harness error: unknown family {family}");
+    std::process::exit(2);
+}
+
 pub fn replay(r: &Replay) -> i32 {
     eprintln!("harness error: unknown replay family {}", r.family);
     2
